@@ -277,6 +277,52 @@ where
     (viol, n_its, clones, trace)
 }
 
+/// two iterators over the same collection, each driven by its own group of free-running threads
+fn multi_concurrent<C: ConcurrentIter>(mk: impl Fn() -> C, base: &SrcInfo, rng: &mut Rng, p: &Profile) -> (Vec<Violation>, Vec<J>)
+where
+    C::Item: Elem,
+{
+    let its = [mk(), mk()];
+    let scripts: Vec<Script> = (0..4).map(|_| gen_script(rng, p, base.len)).collect();
+    crate::sched::RACE_MODE.store(false, Relaxed);
+    crate::sched::CLOCK.store(1, std::sync::atomic::Ordering::SeqCst);
+    let gate = std::sync::atomic::AtomicUsize::new(0);
+    let logs: Vec<Vec<Rec>> = std::thread::scope(|s| {
+        let hs: Vec<_> = (0..4usize)
+            .map(|t| {
+                let it = &its[t / 2];
+                let script = &scripts[t];
+                let gate = &gate;
+                s.spawn(move || {
+                    let mut ctx = Ctx::new(t, base);
+                    gate.fetch_add(1, Relaxed);
+                    while gate.load(Relaxed) < 4 {
+                        std::thread::yield_now();
+                    }
+                    let _ = run_script(it, script, &mut ctx);
+                    ctx.recs
+                })
+            })
+            .collect();
+        hs.into_iter().map(|h| h.join().expect("worker")).collect()
+    });
+    let mut viol = Vec::new();
+    let [a, b] = its;
+    for (k, it) in [a, b].into_iter().enumerate() {
+        let mut recs: Vec<Rec> = logs[2 * k].iter().chain(logs[2 * k + 1].iter()).cloned().collect();
+        recs.sort_by_key(|r| (r.t0, r.thread));
+        let rem: Vec<Ident> = it.into_seq_iter().map(|x| x.ident(base)).collect();
+        let h = Hist { info: base, recs: &recs, nthreads: 4, realtime: true, remainder: Some(&rem), remainder_complete: true, torn: false, injected: false, drain_overrun: false, finish_panic: None, sched: None, frozen: false };
+        let (v, _) = rules::check(&h);
+        for mut x in v {
+            x.detail = format!("iterator #{} of two over the same collection, each pulled by its own two threads: {}", k, x.detail);
+            viol.push(x);
+        }
+    }
+    let trace = scripts.iter().enumerate().map(|(t, s)| J::obj().set("thread", J::u(t)).set("iterator", J::u(t / 2)).set("script", s.render())).collect();
+    (viol, trace)
+}
+
 pub fn cmd_multi(a: &Args) -> i32 {
     let seed = a.u64("seed", 1);
     let execs = a.u64("execs", 200);
@@ -308,7 +354,36 @@ pub fn cmd_multi(a: &Args) -> i32 {
         let mut info = SrcInfo { kind: "slice", len, base_addr: 0, stride: 0, range_start: 0, salt, consuming: false, adaptor: false, wrapped: false, exact_len: true, start_pos: 0 };
         let mut viol;
         let (n_its, clones, trace);
+        let concurrent = e % 4 == 3;
+        let pp = profile("pulls");
         match kind {
+            _ if concurrent && kind.starts_with("range") => {
+                info.kind = "range";
+                info.range_start = (salt % 1000) as usize;
+                let r = info.range_start..info.range_start + len;
+                let out = multi_concurrent(|| r.con_iter(), &info, &mut rng, &pp);
+                viol = out.0;
+                n_its = 2;
+                clones = 0;
+                trace = out.1;
+            }
+            _ if concurrent => {
+                let src = crate::probe::mk_tk_vec(len, salt);
+                info.base_addr = src.as_ptr() as usize;
+                info.stride = std::mem::size_of::<Tk>();
+                let out = if kind == "vec_ref" { multi_concurrent(|| src.con_iter(), &info, &mut rng, &pp) } else { multi_concurrent(|| src.as_slice().into_con_iter(), &info, &mut rng, &pp) };
+                viol = out.0;
+                n_its = 2;
+                clones = 0;
+                trace = out.1;
+                let mut bad = src.len() != len || src.as_ptr() as usize != info.base_addr;
+                for (i, x) in src.iter().enumerate() {
+                    bad |= x.id as usize != i || x.pay != pay_of(i as u64, salt) || x.gen != 0 || DROPPED[i].load(Relaxed) != 0 || CLONED[i].load(Relaxed) != 0;
+                }
+                if bad {
+                    viol.push(Violation { rule: "SRC-MODIFIED", props: &["C19"], detail: "collection modified, moved, cloned or dropped by concurrent non-consuming iteration".into() });
+                }
+            }
             "range" | "range_into" => {
                 info.kind = "range";
                 info.range_start = (salt % 1000) as usize;
